@@ -515,6 +515,11 @@ class Densify(EnvironmentFilter):
 
         self._lookup = defaultdict(factory)
 
+    def __reduce__(self):
+        #the lookup (a defaultdict over a local function) can't be pickled. A copy
+        #assigns its indexes in the same (seeded) order so it is rebuilt from the arguments.
+        return (Densify, (self._n_feats, self._method, self._context, self._action))
+
     @property
     def params(self) -> Mapping[str, Any]:
         return { "dense_m": self._method, "dense_n": self._n_feats, "dense_c": self._context, "dense_a": self._action }
